@@ -238,6 +238,12 @@ func runC15(r *Run) {
 		}
 		for bits := uint64(2); bits <= 4; bits++ {
 			for deg := uint64(2); deg <= 6; deg++ {
+				// plonky2's CosetInterpolationGate::with_max_degree never chooses a degree above the number
+				// of points (from degree = 2^bits on no intermediate value is needed and the first such
+				// degree is taken): larger degrees are not identifiers plonky2 emits
+				if deg > 1<<bits {
+					continue
+				}
 				add(cosetGateSpec(bits, deg))
 			}
 		}
